@@ -49,7 +49,8 @@ def jobs(tier):
     # flag on the live and on the resumed object and compares every field
     mir = [Job('harness.sampler_file:mirror',
                dict(m=[2, 1], explored=True, end_exp=[1, 0], discard=d,
-                    n_batch=1, K=1), pkg_key='sampler', max_paths=8000)
+                    n_batch=1, K=1), pkg_key='sampler', max_paths=8000,
+               split=9)
            for d in (False, True)]
     return (common.run_jobs(tier, ['C12'], which=('explored', 'end', 'bound'))
             + toggle_jobs(tier) + common.add_samples_jobs(tier, ['C12'])
